@@ -44,7 +44,7 @@ Definition oracle18 (c : case18) : bool :=
   | C18 s img obs =>
       forallb (fun x => negb (Nat.eqb x 2)) obs &&
       (* the theorem's body on the regenerated schema (model-side search when the proof breaks) *)
-      c18_body_b s &&
+      c18_body3_b s &&
       (* the library accepts the Spec, timeouts within 0..2^32-1 ==> *)
       (negb (Nat.eqb (ob obs 1) 0 && timeouts_ok_b s) ||
        ((* the schema accepts the in-memory Spec, and writing with the validator installed works as without *)
